@@ -73,7 +73,7 @@ def judge(kind, got, must, must_not, und, wit, alt=None):
 
 def post_find_by_position(self, point_list, result):
     try:
-        if M.SINK is None or len(self.lanelets) > 400:
+        if M.SINK is None or len(self.lanelets) > 150:
             return True
         for p, got in zip(point_list, result):
             p = np.asarray(p, dtype=float)
@@ -91,7 +91,7 @@ def post_find_by_position(self, point_list, result):
 
 def post_find_by_shape(self, shape, result):
     try:
-        if M.SINK is None or len(self.lanelets) > 400:
+        if M.SINK is None or len(self.lanelets) > 150:
             return True
         must, must_not, und = expected_by_shape(self, shape)
         alt = None
